@@ -69,6 +69,37 @@ def shortcircuit_program(rng):
     return "".join(L)
 
 
+def operand_order_program(rng):
+    """every binary operator with two effectful operands (printing calls), and with a left operand that reads a global the right
+    operand's call updates: strict left-to-right evaluation (specification 4.9) fixes both the printed order and the value"""
+    L = ["let mut level: int = 5\n"
+         "fn p(x: int) -> int {\n    (println x)\n    return x\n}\nshadow p { assert (== 1 1) }\n"
+         "fn pb(x: int, r: bool) -> bool {\n    (println x)\n    return r\n}\nshadow pb { assert (== 1 1) }\n"
+         "fn bump() -> int {\n    set level (+ level 10)\n    return level\n}\nshadow bump { assert (== 1 1) }\n"
+         "fn main() -> int {\n"]
+    k = 100
+    ops = ["+", "-", "*", "/", "%", "==", "!=", "<", "<=", ">", ">="]
+    rng.shuffle(ops)
+    for op in ops:
+        a, b = rng.randint(1, 9), rng.randint(1, 9)
+        k += 2
+        L.append("    (println (%s (p %d) (p %d)))\n" % (op, k * 10 + a, k * 10 + 10 + b))
+        L.append("    (println (%s level (bump)))\n" % op)
+        L.append("    (println (%s (bump) level))\n" % op)
+        L.append("    (println (%s (+ 1 (p %d)) (* 2 (p %d))))\n" % (op, k * 10 + 1, k * 10 + 2))
+    for op in ("and", "or"):
+        for la in ("true", "false"):
+            for rb in ("true", "false"):
+                k += 2
+                L.append("    (println (%s (pb %d %s) (pb %d %s)))\n" % (op, k, la, k + 1, rb))
+                # right operand is an operator expression whose *second* operand has the effect
+                L.append("    (println (%s (pb %d %s) (== 3 (p %d))))\n" % (op, k + 1000, la, 3))
+                L.append("    (println (%s (pb %d %s) (not (pb %d %s))))\n" % (op, k + 2000, la, k + 2001, rb))
+                L.append("    (println (%s (pb %d %s) (%s (== 1 1) (pb %d %s))))\n" % (op, k + 3000, la, rng.choice(["and", "or"]), k + 3001, rb))
+    L.append("    (println level)\n    return 0\n}\nshadow main { assert (== 1 1) }\n")
+    return "".join(L)
+
+
 def strconv_program(vals):
     L = ["fn main() -> int {\n"]
     for i, v in enumerate(vals):
